@@ -182,6 +182,8 @@ def _check(pid, tier, seed, jobs, rundir, known):
     exhaustive = None
     extra = {}
     for spec, res, err in results:
+        if os.environ.get('VERIF_VERBOSE') and res:
+            print('  shard %s %s: %.1fs, %d cases' % (spec.get('shard'), spec.get('part', ''), res.get('wall_s', 0), res.get('evaluations', 0)))
         if err:
             errors.append(err)
             continue
